@@ -234,9 +234,16 @@ def _book_of_real_unit(x):
     return f, d
 
 
+class NonFinite(Exception):
+    """the real code RETURNED inf/nan (no exception): canonical token, matched by the model's `Err.nonFinite`"""
+
+
 def _jf(x):
-    """number for the impl-side JSON (floats with full precision)"""
-    return float(x)
+    """number for the impl-side JSON (floats with full precision); a non-finite result becomes the token `NonFinite`"""
+    x = float(x)
+    if math.isinf(x) or math.isnan(x):
+        raise NonFinite()
+    return x
 
 
 def _pv(x):
@@ -274,8 +281,8 @@ def _num_eq(a, b, tol):
         fb = float(F(b)) if isinstance(b, str) else float(b)
     except (ValueError, ZeroDivisionError, TypeError):
         return False
-    if math.isnan(fa) or math.isnan(fb):
-        return False
+    if not (math.isfinite(fa) and math.isfinite(fb)):
+        return False          # inf/nan never match a number (`inf <= tol*inf` would accept anything); they are tokens (`NonFinite`)
     return abs(fa - fb) <= tol * max(abs(fa), abs(fb)) + 1e-300
 
 
@@ -429,11 +436,28 @@ class C09(Property):
         'Quantity arrays behave as the list of their elements with one common unit; UncertainQuantity, n-d arrays, non-integer exponents, '
         'angles/currency/information units and the iteration order of dimensionality dicts are outside the model',
     )
+    clauses_without_theorem = (
+        '"exact": the theorems are exact over a field; the real code is float64 and is compared to 1e-12 relative (1e-9 for polyval/polyfit/logspace) — rounding is not modelled',
+        'the (factor, exponent vector) of every `quantities` unit (its unit tables, prefix factors, constants eV and N_A): read or hand-written, never proved; '
+        'a wrong table entry is caught by the correspondence (harness table vs real objects) and own_units_physical only for chempy\'s own definitions; per100eV: dimension only',
+        'human-readable round trip: that the unit-string parser of quantities resolves the plain symbol of EVERY standard prefixed unit to a unit of the same value '
+        '(hypothesis of human_readable_roundtrip) is checked by the oracle on the units of the harness table only',
+        'get_physical_dimensionality / default_unit_in_registry / unitless_in_registry on dicts: the code only supports unitless dicts (theorem: {} / AttributeError); nested containers: not modelled',
+        'unit_of on containers (unitOf_list is a lemma, not a Props theorem); Backend/patched_numpy with CONTAINER arguments (scalar arguments have theorems); uncertainty(), '
+        'latex/unicode/html_of_unit, format_string, fold_constants, simplified(): not modelled',
+        'compare_equality between a quantity and a plain number, and on containers/None: mirrored for scalars (quirk witness), no specification theorem',
+        'allclose with atol when a plain number is involved, allclose on lists/arrays (mirrored by the model, correspondence + oracle), UncertainQuantity arguments',
+        'polyval with a list/array x (element-wise use of the scalar theorem; correspondence + oracle); polyfit: scaling covariance of np.polyfit itself is a hypothesis of '
+        'helpers_polyfit_unit_independent (oracle compares with the fit of the SI magnitudes)',
+        'logspace_from_lin: theorem over the reals for positive end points; the Float instantiation is compared to 1e-9',
+        'a target unit of magnitude 0 (inf/nan in Python): outside the property; the model returns the token NonFinite (correspondence only), all theorems assume u.si != 0',
+        'n-d arrays, object arrays, kwargs of the NumPy wrappers (axis=...), registries with entries that are not single-dimension units',
+    )
     anchors = tuple(('chempy/units.py', n) for n in (
         'magnitude', 'is_unitless', 'unit_of', 'rescale', 'to_unitless', 'uniform', 'get_physical_dimensionality',
         '_get_unit_from_registry', 'default_unit_in_registry', 'unitless_in_registry', 'get_derived_unit',
         'unit_registry_to_human_readable', 'unit_registry_from_human_readable', 'compare_equality', 'allclose', 'linspace',
-        'logspace_from_lin', 'concatenate', 'tile', 'polyfit', 'polyval', 'Backend.__getattr__'))
+        'logspace_from_lin', 'concatenate', 'tile', 'polyfit', 'polyval', 'Backend.__getattr__', '_wrap_numpy'))
 
     # ------------------------------------------------------------------------------------------------ generation
     def generate(self, rng, n, tier):
@@ -468,6 +492,11 @@ class C09(Property):
             u = rng.choice([{'num': 1}, None, {'mag': 1.0, 'u': []}, {'mag': 1.0, 'u': [['km', 1], ['m', -1]]}, {'mag': 1.0, 'u': [['s', 1]]}])
             return {'op': 'to_unitless', 'v': q, 'u': u}
         compat = r < 0.7
+        if rng.random() < 0.03:       # a "unit" of magnitude 0: Python returns inf/nan, the model the token NonFinite
+            t = _target(rng, q, rng.random() < 0.7)
+            t['mag'] = 0.0
+            v = q if rng.random() < 0.6 else {'l': [q, _compat_q(rng, q)]}
+            return {'op': 'to_unitless', 'v': v, 'u': t, 'degenerate': True}
         c = {'op': 'to_unitless', 'v': q, 'u': _target(rng, q, compat), 'compat': compat}
         if compat:
             c['w'] = _target(rng, q, True)                       # third unit for the composition law
@@ -998,6 +1027,8 @@ class C09(Property):
         if op == 'to_unitless':
             leaves = _leaves(c['v'])
             u = c['u']
+            if u is not None and 'u' in u and u['mag'] == 0:
+                return None      # 0*unit is not a unit (outside the property); the correspondence pins the behaviour (inf/nan -> NonFinite)
             ub = (F(1), F(1), (0,) * 7) if u is None else _book(u)
             bad = [x for x in leaves if 's' in x or _book(x)[2] != ub[2]]
             call = lambda: cu.to_unitless(_real_val(c['v']), None if u is None else _real(u))
@@ -1266,6 +1297,10 @@ class C09(Property):
             rec = []
             be = cu.Backend(type('M', (), {c['fn']: staticmethod(lambda *a: rec.extend(a) or 0.0)})())
             call = lambda: getattr(be, c['fn'])(*[_real(x) for x in c['args']])
+            if any(_book(c['args'][0])[2]):
+                f0 = self._raises(lambda: cu.patched_numpy.exp(_real(c['args'][0])))
+                if f0 is not None:
+                    return 'patched_numpy.exp of a dimensional argument: ' + f0
             if any(any(_book(x)[2]) for x in c['args']):
                 f = self._raises(call)
                 if f is None and rec:
@@ -1275,6 +1310,12 @@ class C09(Property):
             for x, g in zip(c['args'], rec):
                 if hasattr(g, 'dimensionality') or not ok(g, _si(x)):
                     return 'Backend passed %r for the dimensionless value %r' % (g, float(_si(x)))
+            # patched_numpy.<f> (_wrap_numpy): same wrapper around the NumPy function
+            x0 = c['args'][0]
+            if abs(float(_si(x0))) < 50:
+                got = cu.patched_numpy.exp(_real(x0))
+                if hasattr(got, 'dimensionality') or not close(float(got), math.exp(float(_si(x0))), 1e-9):
+                    return 'patched_numpy.exp(%r) = %r, exp of the plain value = %r' % (x0, got, math.exp(float(_si(x0))))
             return None
 
         if op == 'own_unit':
